@@ -8,6 +8,8 @@ T = {
  "C03": ("stateful generation + quiescence invariant (liveness as safety at harness-made quiescent points)", "At every quiescent point of generated histories the status must be resting; the harness owns the schedule so quiescence is observable exactly.", "probe poll is a pure query (C19); rerun only after unhandled task failure (R10/R11 owned by C17)"),
  "C04": ("stateful generation past terminal + exhaustive 16x status request table on copies (state-diff oracle)", "Histories continued past the first terminal status with generated suffixes; every status requested on copies of reachable states; rejected => serialize() byte-identical.", "only 'rejected => no effect' and terminal finality are asserted"),
  "C05": ("lock-step differential (never-persisted twin vs persisted/restored twin) over generated histories", "Differential: two conductors receive the same calls, one is persisted/restored at generated points through a real JSON round trip; any observable difference is a violation.", "persistence = json round trip of serialize()"),
+ "C07": ("directed fork-join generation + reference-model oracle (join instances per route) + unreachable-join oracle at rest", "Directed and general generated definitions x schedules; each join offer must consume a firing of its model instance; at rest a partial instance must have failed the workflow with UnreachableJoinError.", "join N < inbound outside cycles only; known finding R1 matched narrowly"),
+ "C08": ("metamorphic relation over the set of linearisations (exhaustive DFS up to 720 orders, else 64)", "One definition with fixed per-task outcomes executed under every completion order (or 64): status, executed multiset, published deltas and non-concurrent output variables must agree.", "publishes are literals/result-derived; concurrent-writer exclusion is conservative; R3/R1 matched or excluded"),
  "C10": ("stateful generation with one cancel at a generated position + ledger/model invariant", "Cancellation invariant (no offers, canceling/canceled by ledger, final canceled, output renders) on generated histories.", "definitions cannot fail expressions (C11 owns that); dormant != in flight"),
  "C19": ("cross-process differential replay under different PYTHONHASHSEED values + idempotence probe at every poll point", "Generated definitions (accepted and rejected mutants) and histories replayed in 4 interpreters with different hash seeds, digests compared step by step; three consecutive get_next_tasks() compared at every poll point with state diff.", "children use the same library-free driver; canonical JSON for objects, ordered comparison for lists"),
  "C14": ("generated definitions vs independent reference graph construction + metamorphic declaration-order permutations + serialisation round trip", "Composer output compared as sets of nodes/edges/keys/attributes with a reference built from the IR; every or 7 sampled permutations of the declaration order; round trip.", "the `splits` node attribute is not part of the statement and not compared"),
